@@ -208,3 +208,99 @@ ASSUMPTIONS = ["virtual time: a hooked sleep of length d started at clock t0 is 
                "keep_alive_time 0, any max_size",
                "real overlap on the OS clock (epoll timeouts, thread scheduling) is observed by the supporting "
                "real-time runs with a one-sided generous bound, not proved"]
+
+PINNED = ["C15_holds", "C15_overlap", "C15_sibling_progress", "C15_parse_sound"]
+
+
+# ----------------------------------------------------------------------------- real-time support
+
+def extra(tier, rng, build_cache, known):
+    """Real time, supporting evidence only: a real EventLoops with one loop; N tasks call the crate's hooked
+    nanosleep / usleep for d ms, with computing tasks in between. One-sided and generous: a runtime that ran
+    the sleeps one after another needs N*d; demanded is makespan < d + 0.5*(N-1)*d (for N >= 2), measured from
+    the first sleeper's start to the last sleeper's return, and the computing siblings done before that bound as
+    well; a configuration counts as failing only if it fails three runs in a row (loaded machine). A sleeper
+    returning early is a violation at once."""
+    key = ((), False)
+    if key not in build_cache:
+        build_cache[key], _ = core.build_harness((), False)
+    grid = [(2, 50), (8, 50), (16, 50), (2, 200), (8, 200), (16, 200)]
+    if tier == "quick":
+        grid = [(2, 50), (8, 50), (16, 50), (8, 200)]
+    cases = []
+    for n, d in grid:
+        cases.append({"n": n, "d_ms": d, "comp": 3, "call": "nanosleep" if (n + d) % 3 else "usleep", "origin": "extra"})
+    for i, c in enumerate(cases):
+        c["id"] = i
+    viol = []
+    runs = []
+    incomplete = 0
+    todo = list(cases)
+    attempts = 0
+    last = {}
+    while todo and attempts < 3:
+        # a loaded machine makes single runs noisy; a runtime that serialises the sleeps fails every time
+        attempts += 1
+        res = core.run_harness(build_cache[key], "c15rt", todo, isolate=True, timeout_ms=30000, jobs=2)
+        again = []
+        for c in todo:
+            r = res.get(c["id"], [])
+            x = r[0] if r else None
+            if not isinstance(x, dict) or "makespan_ns" not in x:
+                last[c["id"]] = (c, r, None)
+                again.append(c)
+                continue
+            n, d = c["n"], c["d_ms"] * NS_MS
+            first = int(x["first_sleep_start_ns"])
+            mk = int(x["makespan_ns"]) - first             # from the first sleeper's start to the last one's return
+            sib = max(0, int(x["sibling_ns"]) - first)
+            mn = int(x["min_sleep_ns"])
+            bound = d + (n - 1) * d // 2
+            note = None
+            if mk >= bound:
+                note = "makespan %d ns >= bound %d ns (one after another would be %d)" % (mk, bound, n * d)
+            elif sib >= bound:
+                note = "computing siblings finished only %d ns after the first sleeper started" % sib
+            elif mn < d:
+                note = "a sleeper returned %d ns early" % (d - mn)
+            elif int(x.get("bad_ret", 0)) != 0:
+                note = "hooked sleep returned an error"
+            rec = {"n": n, "d_ms": c["d_ms"], "call": c["call"], "makespan_ms": round(mk / 1e6, 1),
+                   "siblings_done_ms": round(sib / 1e6, 1), "startup_ms": round(first / 1e6, 1),
+                   "serial_ms": n * c["d_ms"], "bound_ms": bound // NS_MS, "attempt": attempts}
+            last[c["id"]] = (c, r, note, rec)
+            if note is not None and not note.startswith("a sleeper returned") and attempts < 3:
+                again.append(c)
+        todo = again
+    for cid in sorted(last):
+        ent = last[cid]
+        if ent[2] is None and len(ent) == 3:
+            incomplete += 1
+            continue
+        c, r, note, rec = ent
+        runs.append(rec)
+        if note is not None:
+            viol.append({"case": c, "obs": r, "note": note})
+    return {"info": {"real_time_runs": runs, "real_time_incomplete": incomplete}, "violations": viol}
+
+
+LEVEL_TEXT = ("Unbounded theorems (every max_size, start clock, number and order of tasks, deadlines and clock "
+              "changes) about the executable pool model Sched/Pool.v (worker loop of try_grow, creator listener, "
+              "do_schedule with its syscall-suspend heap, work-steal queues) on virtual time: at the end of every "
+              "scheduling pass that was not cut by its deadline, either no task is pending or every worker slot is "
+              "occupied by a worker blocked in a hooked wait whose time has not come; no pass errs or diverges "
+              "(C15_holds). Corollaries over the model's own run: N <= max_size sleepers all start their wait in the "
+              "first pass and all tasks are finished after one pass past the wake-up times (C15_overlap); with a spare "
+              "slot every computing sibling finishes in the first pass (C15_sibling_progress). The model is tied to "
+              "the repository by running the same histories on a real CoroutinePool (real worker coroutines, real "
+              "scheduler, recording listener, virtual clock) and comparing all observations inside Coq; the oracle is "
+              "evaluated on the implementation's trace.")
+LEVEL_NOTE = ("Partial by nature: the theorems are about virtual time (a hooked sleep is the state sequence the "
+              "facade and EventLoop::wait_just perform, with 'until t' as the wait; time passes only between passes). "
+              "That the OS clock, epoll timeouts and the loop thread really overlap the sleeps is only observed by "
+              "the real-time runs (one loop, N in {2,8,16}, d in {50,200} ms, one-sided bound d + 0.5*(N-1)*d), not "
+              "proved. One event loop, default min_size 0 / keep_alive_time 0 only; the dylib interposition "
+              "(hook crate) and socket waits are not exercised. No axioms (Print Assumptions: closed under the "
+              "global context).")
+TECHNIQUE = ("machine-checked proof (Coq, invariant + termination measure over the pool model's scheduling pass) + "
+             "exact differential correspondence under a virtual clock; real-time makespan runs as supporting evidence")
